@@ -746,8 +746,11 @@ def run_sequence(root: str, tag: str, files: T.Dict[str, str], pool: T.Sequence[
                         count('monitor:span-inside-one-statement' if inside else 'monitor:span-not-inside-a-statement')
         out['cases'].append(common.digest([sorted(model.files.items()), cmd, via]))
         if len(out['samples']) < 1 and st.outcome == 'applied':
+            mon = next((r for r in res.records if r.get('ev') == 'apply_changes'), {})
             out['samples'].append({'cmd': cmd, 'via': via, 'diff': {f: _diff(model.files.get(f, ''), new_state.get(f, ''))[:14]
-                                                                     for f in new_state if new_state[f] != model.files.get(f)}})
+                                                                     for f in new_state if new_state[f] != model.files.get(f)},
+                                   'monitor_spans_spliced': mon.get('edits'), 'monitor_replacement_text': mon.get('printed', [])[:2],
+                                   'monitor_printer_visits': mon.get('visits')})
         if st.fail is not None:
             out['violations'].append({'mechanism': st.fail['mechanism'], 'oracle': st.fail['oracle'],
                                       'explanations': st.fail['explanations'],
@@ -869,7 +872,15 @@ def worker(job: T.Tuple[str, int, int, int, int, float]) -> dict:
             planned = G.gen_sequence(rng, model0, proj['pool'], maxlen=2)
             if not (planned and planned[0].get('law')):
                 planned = None
-        o = run_sequence(root, f'p{idx}_{s}', proj['files'], proj['pool'], rng, planned, maxlen, inside_exist)
+        try:
+            o = run_sequence(root, f'p{idx}_{s}', proj['files'], proj['pool'], rng, planned, maxlen, inside_exist)
+        except Exception:      # a defect of this harness must not pass for a verdict
+            import traceback
+            out['counts']['harness-error'] = out['counts'].get('harness-error', 0) + 1
+            if not out['notes']:
+                out['notes'].append({'sig': 'harness-error', 'cmd': None, 'files': proj['files'], 'rc': None,
+                                     'err_tail': traceback.format_exc()[-1500:]})
+            continue
         merge(out, o)
     return out
 
@@ -889,6 +900,10 @@ def probes() -> T.List[T.Tuple[str, T.Dict[str, str], T.List[dict], str, bool]]:
     P.append(('paren-method', {'meson.build': base + "executable('prog', 'm.c', install_dir : (n + 1).to_string())\n"}, [kwset()], 'json', False))
     P.append(('paren-ternary', {'meson.build': base + "executable('prog', 'm.c', pie : (a ? b : a) or a)\n"}, [kwset()], 'json', False))
     P.append(('arith-ok', {'meson.build': base + "executable('prog', 'm.c', d_module_versions : [(n + 1) * 2, n - (1 - 2), 8 / (2 * 2)])\n"}, [kwset()], 'json', False))
+    P.append(('strings-ok', {'meson.build': base + "executable('prog', 'm.c', c_args : [f'n=@n@', f'''m\n@n@ ''', 'a\\\\b', 'tab\\there', "
+                                                   "'\u00e9\\u00e9\\x41\\101', 'unk\\d', '#h', '@0@'.format(n)], "
+                                                   "install_dir : '''raw\\n 'quoted' text''', override_options : {'b' : 1, 'a' : [2, 'x']})\n"},
+              [kwset()], 'json', False))
     P.append(('mul-over-div', {'meson.build': base + "executable('prog', 'm.c', d_module_versions : [2 * (3 / 2)])\n"}, [kwset()], 'json', False))
     P.append(('quote', {'meson.build': base + "executable('prog', 'm.c', install_dir : 'it\\'s')\n"}, [kwset()], 'json', False))
     P.append(('quote-in-sources', {'meson.build': base + "executable('prog', 'o\\'k.c', 'm.c')\n"},
@@ -923,6 +938,16 @@ def probes() -> T.List[T.Tuple[str, T.Dict[str, str], T.List[dict], str, bool]]:
               [{'type': 'target', 'target': 'prog', 'operation': 'src_rm', 'sources': ['src/a.c']}], 'json', False))
     P.append(('same-basename-rm2', {'meson.build': base + "srcs = ['src/a.c', 'a.c', 'b.c']\nexecutable('prog', srcs)\n"},
               [{'type': 'target', 'target': 'prog', 'operation': 'src_rm', 'sources': ['a.c']}], 'cli', False))
+    P.append(('kw-delete', {'meson.build': base + "dep = dependency('zlib', required : false, version : ['>=1.0'])\nexecutable('prog', 'm.c', install : true, pie : false)\n"},
+              [{'type': 'kwargs', 'function': 'target', 'id': 'prog', 'operation': 'delete', 'kwargs': {'install': None}},
+               {'type': 'kwargs', 'function': 'dependency', 'id': 'zlib', 'operation': 'add', 'kwargs': {'version': '<2.0'}},
+               {'type': 'kwargs', 'function': 'dependency', 'id': 'dep', 'operation': 'info'}], 'json', False))
+    P.append(('law-add-rm', {'meson.build': base + "srcs = ['a.c', 'b.c']\nexecutable('prog', srcs, install : true)\n"},
+              [{'type': 'target', 'target': 'prog', 'operation': 'src_add', 'sources': ['new.c'], 'law': 'add-then-rm'},
+               {'type': 'target', 'target': 'prog', 'operation': 'src_rm', 'sources': ['new.c'], 'law': 'add-then-rm'}], 'cli', False))
+    P.append(('law-rm-add', {'meson.build': base + "executable('prog', files('a.c', 'b.c'), install : true)\n"},
+              [{'type': 'target', 'target': 'prog', 'operation': 'src_rm', 'sources': ['b.c'], 'law': 'rm-then-add'},
+               {'type': 'target', 'target': 'prog', 'operation': 'src_add', 'sources': ['b.c'], 'law': 'rm-then-add'}], 'json', False))
     # calibration on the shape of the repository's own fixtures
     fx = ("project('rewritetest')\nsrc1 = ['main.cpp', 'fileA.cpp']\nsrc2 = files(['fileB.cpp', 'fileC.cpp'])\n"
           "exe0 = executable('trivialprog0', src1 + src2)\nexe1 = executable('trivialprog1', src1)\n"
@@ -1013,6 +1038,8 @@ def main() -> int:
                  'oracle:roundtrip:add-then-rm', 'oracle:roundtrip:rm-then-add', 'oracle:roundtrip-end-state', 'probes'):
         chk.require(name, 1)
     chk.require('outcome:applied', 50 if quick else 1000)
+    if agg['counts'].get('harness-error', 0):
+        chk.inconclusive.append(f"harness-error x{agg['counts']['harness-error']} (see notes)")
     return chk.finish(
         rule='one case = (project state, rewriter command, CLI|JSON form); projects are generated (targets, dependency(), '
              'project() with expression-valued other arguments; 12 source shapes; optional subdir); commands are generated '
